@@ -153,7 +153,11 @@ func planC06(w *World, spec RunSpec) {
 	w.drawFaultMix("err-before", "lost-response", "crash", "compaction", "duplicate")
 	w.Cfg.Faults["drift"] = true
 	w.Cfg.Ndist = 80 + s.Intn(400, "ndist")
-	w.Scenario = GenOS(w, OSProfile{MaxSets: 3, Delegation: true, Lifecycle: true, LateCreate: true, NeverReady: s.Bool("never-ready")})
+	sl := 0
+	if s.Chance(1, 3, "sliced") {
+		sl = 1
+	}
+	w.Scenario = GenOS(w, OSProfile{MaxSets: 3, Delegation: true, Lifecycle: true, LateCreate: true, NeverReady: s.Bool("never-ready"), Sliced: sl, Intruder: "granular", DriftOnly: true, SliceDrift: sl == 1})
 	w.StartProcesses()
 	w.Disturb(w.Cfg.Ndist)
 	w.finish()
